@@ -23,6 +23,9 @@ ROUTINES = {
 OPTIMISERS = ["community_louvain", "modularity_louvain_und", "modularity_louvain_dir", "modularity_louvain_und_sign",
               "modularity_finetune_und", "modularity_finetune_dir", "modularity_finetune_und_sign"]
 TOL = 1e-9
+# routines that accept a logical adjacency matrix (the others reject it with a TypeError from NumPy's boolean arithmetic)
+BOOL_OK = {"community_louvain", "modularity_finetune_und", "modularity_finetune_dir", "modularity_und", "modularity_dir",
+           "modularity_louvain_und", "modularity_louvain_dir", "modularity_louvain_und_sign"}
 
 
 class MoveRecorder:
@@ -160,7 +163,7 @@ def cases(draw, name, nmax, give_start=None):
             W[0, 1] = abs(W).max() * 4 or 1.0
         kind = "sign"
     if np.all((W == 0) | (W == 1)) and draw(st.integers(0, 2)) == 0:
-        W = W.astype(draw(st.sampled_from(["uint8", "int64", "int32", "uint16", "int8"])))          # 0/1 matrices are often stored as integers
+        W = W.astype(draw(st.sampled_from(["uint8", "int64", "int32", "uint16", "int8"] + (["bool", "bool"] if name in BOOL_OK and not str(case.get("objective", "")).startswith("negative") else []))))          # 0/1 matrices are often stored as integers / logicals
     case["W"] = W
     case["order"] = draw(st.sampled_from(gen.ORDERS))
     n = len(W)
@@ -182,6 +185,8 @@ def cases(draw, name, nmax, give_start=None):
         case["ci0"] = None
     if name == "modularity_probtune_und_sign":
         case["p"] = draw(st.sampled_from([0.0, 0.2, 0.45, 1.0]))
+    if case.get("ci0") is not None:
+        case["ci_as"] = draw(st.sampled_from(["list", "array", "array", "tuple"]))       # a partition handed over as a plain Python sequence
     return case
 
 
@@ -192,13 +197,18 @@ def call(case, ctx, ci0="case"):
     name = case["fn"]
     fn = getattr(bct, name)
     W = np.array(case["W"])
-    if W.dtype.kind not in "iu":
+    if W.dtype.kind not in "iub":
         W = W.astype(float)
     W = gen.layout(W, case.get("order"))
     g = case["gamma"]
     seed = case["seed"]
     start = case.get("ci0") if isinstance(ci0, str) else ci0
     start = None if start is None else np.array(start)
+    if start is not None and case.get("ci_as") in ("list", "tuple"):
+        class _Seq(list):          # a plain Python sequence that still answers .copy() like the arrays used below
+            def copy(self_):
+                return (tuple if case["ci_as"] == "tuple" else list)(self_)
+        start = _Seq(start.tolist())
     with MoveRecorder() as rec:
         if name == "community_louvain":
             o = ctx.call(fn, gen.layout(W.copy(), case.get("order")), gamma=g, ci=(None if start is None else start.copy()), B=case["objective"], seed=seed)
